@@ -218,6 +218,94 @@ fn part_a(rep: &mut Report, graphs: &[QGraph], queries: &[Query]) {
 }
 
 // ---------------------------------------------------------------------------
+// Part A2: min/max pruning against the same predicate in a form the pruning cannot see
+// ---------------------------------------------------------------------------
+
+const PVALS: [&str; 6] = ["1", "2", "3", "1.5", "2.5", "-"];
+const PLITS: [&str; 6] = ["0", "1", "1.5", "2", "3", "4"];
+const POPS: [&str; 6] = ["=", "<>", "<", "<=", ">", ">="];
+
+fn pval(v: &str) -> Option<Value> {
+    match v {
+        "-" => None,
+        x if x.contains('.') => x.parse::<f64>().ok().map(Value::Float64),
+        x => x.parse::<i64>().ok().map(Value::Int64),
+    }
+}
+
+/// A database whose nodes carry the values `vals` of property p, written in this order (the summary of a column is
+/// maintained write by write), optionally followed by overwriting the first node's value with `overwrite`.
+fn pruning_db(vals: &[&str], overwrite: Option<&str>) -> GrafeoDB {
+    let db = GrafeoDB::new_in_memory();
+    let mut first = None;
+    for v in vals {
+        let id = match pval(v) {
+            Some(x) => db.create_node_with_props(&["A"], [("p", x)]),
+            None => db.create_node_with_props(&["A"], [("s", Value::String("x".into()))]),
+        };
+        first.get_or_insert(id);
+    }
+    if let (Some(id), Some(Some(x))) = (first, overwrite.map(pval)) {
+        db.set_node_property(id, "p", x);
+    }
+    db
+}
+
+fn pruning_judge(vals: &[&str], overwrite: Option<&str>) -> (Vec<Violation>, u64, bool) {
+    let db = pruning_db(vals, overwrite);
+    let mut viols = vec![];
+    let mut evals = 0;
+    let mut nonempty = false;
+    let column = {
+        let (i, f) = (vals.iter().chain(overwrite.iter()).any(|v| *v != "-" && !v.contains('.')), vals.iter().chain(overwrite.iter()).any(|v| v.contains('.')));
+        if i && f { "mixed-int-float" } else if f { "floats" } else if i { "ints" } else { "absent" }
+    };
+    for op in POPS {
+        for lit in PLITS {
+            for (pat, pname) in [("MATCH (n)", "node"), ("MATCH (n:A)", "node-label")] {
+                let prunable = format!("{pat} WHERE n.p {op} {lit} RETURN n.p");
+                let twin = format!("{pat} WHERE n.p + 0 {op} {lit} RETURN n.p");
+                let (a, b) = (exec(&db, Lang::Gql, &prunable), exec(&db, Lang::Gql, &twin));
+                evals += 2;
+                nonempty |= matches!(&b, Out::Rows(r) if !r.is_empty());
+                if let Some((kind, detail)) = differ(&b, &a, false, false) {
+                    viols.push(Violation::new(
+                        &[("layer", "pruning"), ("kind", kind), ("op", op), ("literal", if lit.contains('.') { "float" } else { "int" }), ("column", column), ("pattern", pname), ("overwrite", if overwrite.is_some() { "yes" } else { "no" })],
+                        json!({"engine": "ENUM/pruning", "values": vals, "overwrite": overwrite, "query": prunable, "twin": twin}),
+                        format!("p written as {vals:?}{}: {prunable} vs {twin}: {}", overwrite.map(|o| format!(" then first := {o}")).unwrap_or_default(), vcore::truncate(&detail, 300)),
+                    ));
+                }
+            }
+        }
+    }
+    (viols, evals, nonempty)
+}
+
+fn part_a2(rep: &mut Report, nodes: usize) {
+    // every sequence of `nodes` values of p (order matters), alone and followed by every overwrite of the first node
+    let seqs = vcore::sequences(PVALS.len(), nodes).into_iter().filter(|s| s.len() == nodes).collect::<Vec<_>>();
+    let mut jobs: Vec<(Vec<&str>, Option<&str>)> = vec![];
+    for s in &seqs {
+        let vals: Vec<&str> = s.iter().map(|i| PVALS[*i]).collect();
+        jobs.push((vals.clone(), None));
+        for o in PVALS.iter().filter(|o| **o != "-") {
+            jobs.push((vals.clone(), Some(o)));
+        }
+    }
+    let results = vcore::par_map(&jobs, vcore::cores(), |_, (vals, ow)| pruning_judge(vals, *ow));
+    for ((vals, ow), (viols, evals, nonempty)) in jobs.iter().zip(results) {
+        rep.evaluations += evals;
+        if nonempty {
+            rep.nontrivial(&("pruning", vals, ow));
+        }
+        for v in viols {
+            rep.violation(v);
+        }
+    }
+    rep.set("part_a2", json!({"value_sequences": seqs.len(), "databases": jobs.len(), "values": PVALS, "literals": PLITS, "operators": POPS}));
+}
+
+// ---------------------------------------------------------------------------
 // Part B: histories on one long-lived database
 // ---------------------------------------------------------------------------
 
@@ -341,6 +429,11 @@ fn run(args: vcore::Args) -> i32 {
             if let Some((kind, detail)) = differ(&base, &o, false, false) {
                 viols.push(Violation::new(&[("layer", "config"), ("variant", variant), ("kind", kind)], case.clone(), detail));
             }
+        } else if case["engine"] == "ENUM/pruning" {
+            let vals: Vec<&str> = case["values"].as_array().map(|a| a.iter().filter_map(|x| x.as_str()).collect()).unwrap_or_default();
+            let want = case["query"].as_str().unwrap_or("").to_string();
+            let (v, _, _) = pruning_judge(&vals, case["overwrite"].as_str());
+            viols.extend(v.into_iter().filter(|x| x.case["query"].as_str() == Some(want.as_str())));
         } else {
             let hist: Vec<&str> = case["history"].as_array().map(|a| a.iter().filter_map(|x| x.as_str()).collect()).unwrap_or_default();
             let q = case["query"].as_str().unwrap_or(QUERIES[0]);
@@ -366,9 +459,11 @@ fn run(args: vcore::Args) -> i32 {
     let space = GraphSpace { max_nodes: 2, max_edges: tier.pick(1, 2), node_kinds: kinds, edge_kinds: GraphSpace::full_edge_kinds() };
     let (graphs, _) = space.enumerate();
     let queries = all_queries(tier.pick(2, 3));
-    rep.rule = format!("part A: every graph of {:?} x (core grammar up to weight {} + 26 predicate shapes) x {{GQL, Cypher}} x 9 physical variants against the plain reference database; part B: every history up to depth {} over 10 letters (data changes, index create/drop) on one long-lived database, 6 query texts re-executed after every step, against a database rebuilt from the data operations alone; distinct non-trivial = cases / histories with a non-empty answer", space.to_json(), tier.pick(2, 3), tier.pick(4, 5));
+    rep.rule = format!("part A: every graph of {:?} x (core grammar up to weight {} + 26 predicate shapes) x {{GQL, Cypher}} x 9 physical variants against the plain reference database; part A2: every sequence of 3 (quick) / 4 (thorough) writes of p from {{1, 2, 3, 1.5, 2.5, absent}} (+ every overwrite of the first) x 6 comparison operators x 6 literals x 2 patterns, the prunable predicate `n.p op lit` against its twin `n.p + 0 op lit` that min/max pruning cannot see; part B: every history up to depth {} over 10 letters (data changes, index create/drop) on one long-lived database, 6 query texts re-executed after every step, against a database rebuilt from the data operations alone; distinct non-trivial = cases / histories with a non-empty answer", space.to_json(), tier.pick(2, 3), tier.pick(4, 5));
     part_a(&mut rep, &graphs, &queries);
     eprintln!("part A: {:.1}s", rep.elapsed_s());
+    part_a2(&mut rep, tier.pick(3, 4));
+    eprintln!("part A2: {:.1}s", rep.elapsed_s());
     part_b(&mut rep, tier.pick(4, 5));
     eprintln!("part B done: {:.1}s", rep.elapsed_s());
     rep.assumptions.push("where a query has SKIP/LIMIT without a total order only the row count is compared".into());
